@@ -46,6 +46,8 @@ def strategy():
             'inner_mode': st.sampled_from(WMODES), 'inherit_sub': st.booleans(),
             'prefix': st.sampled_from(['/sub', '/sub/', '/', '/p/q'])})),
         'decoy': st.booleans(),
+        'decoy_methods': st.sampled_from([None, None, ['POST'], ['GET'], ['PUT', 'DELETE']]),
+        'prime': st.sampled_from([None, None, 'PATCH', 'DELETE', 'PUT', 'OPTIONS']),
         'segs': st.lists(seg, min_size=3, max_size=3),
         'nmulti': st.integers(1, 3),
         'mutation': st.sampled_from(MUTATIONS),
@@ -110,8 +112,9 @@ def build(case):
         prefix = ''
     table = [M.Entry(0, prefix + pattern, case['methods'], 'answer', mode)]
     if case['decoy']:
-        app.add(Route('/<dq*>', make_ep(1, ['dq'])))
-        table.append(M.Entry(1, '/<dq*>', None, 'answer', case['app_mode']))
+        dm = case.get('decoy_methods')
+        app.add(Route('/<dq*>', make_ep(1, ['dq']), methods=dm))
+        table.append(M.Entry(1, '/<dq*>', dm, 'answer', case['app_mode']))
     return app, table, prefix + pattern, mode
 
 
@@ -151,6 +154,10 @@ def body(case, ctx):
     path, segs = make_path(case, full_pattern)
     query, method, script = case['query'], case['method'], case['script']
     rc = dict(case, _path=path)
+    if case.get('prime'):
+        # an earlier request to the same path with another method: it must not change how this one is answered
+        call_environ(app, make_environ(path, case['prime'], query if all(ord(c) < 128 for c in query) else '', script_name=script))
+        ctx.requests += 1
     del _REC[:]
     env = make_environ(path, method, query, script_name=script)
     r = call_environ(app, env)
